@@ -345,7 +345,7 @@ def json_semantic(chk, program):
             chk.check(got['other'] == ('raise', 'TypeError'), 'JSON-TYPES', 'hook::otherwise-TypeError', file=MSG, line=hookf.fn.lineno, func='to_json.default',
                       expected='raise TypeError for anything else (orjson contract)', found=repr(got['other'])[:60])
     # ---- from_json
-    f1 = A.ADict({'id': A.AStr([('lit', 'a')]), 'value': A.AInt(1)}); f2 = A.ADict({'id': A.AStr([('lit', 'b')]), 'value': A.AInt(2)})
+    f1 = A.ADict({'id': A.AStr([('lit', 'a')]), 'value': A.AInt(1), 'raw_value': A.AInt(0)}); f2 = A.ADict({'id': A.AStr([('lit', 'b')]), 'value': A.AInt(2)})
     made = []
     def hook2(it, call, env):
         name = ast.unparse(call.func)
@@ -374,6 +374,10 @@ def json_semantic(chk, program):
     chk.check(okb, 'JSON-BACK', 'from_json', file=MSG, line=fj.lineno, func='from_json', expected='NMEA2000Message(**data) whose fields are [NMEA2000Field(**f) for f in data["fields"]], in order',
               found='ok' if okb else {'result': repr(m2)[:40], 'fields': repr(flds)[:80]})
     if okb:
+        rv0 = flds.items[0].attrs.get('raw_value')
+        okr = isinstance(rv0, A.AInt) and rv0.v == 0
+        chk.check(okr, 'JSON-BACK', 'from_json::zero-raw-value-kept', file=MSG, line=fj.lineno, func='from_json', expected='a field whose raw_value is 0 in the JSON text comes back with raw_value 0',
+                  found='ok' if okr else repr(rv0), detail='' if okr else 'raw value 0 (instance 0, code 0, midnight, angle 0) is turned into "absent": the encoders then fall back to the displayed value or refuse')
         # addressing written as 0 (a device at address 0, priority 0) comes back as 0: a falsy value is a value
         zeros = {k: m2.attrs.get(k) for k in ('destination', 'source', 'priority')}
         okz = all(isinstance(v, A.AInt) and v.v == 0 for v in zeros.values())
